@@ -157,6 +157,23 @@ def run(tier):
                 apply_model(expect, patches)
                 want = canon(expect)
                 kind = patch_kind(patches, g)
+                if patches and sname in ('top', 'top+prims', 'child1', 'child1+prims', 'chain3'):
+                    # the same for a stream written with remote=False (the patches are a matter of loads, not of how the
+                    # stream was written): reference = the unpatched load of that stream with the model applied to it
+                    try:
+                        data_f = rp.dumps(g, remote=False)
+                        base = rp.loads(data_f)
+                        LOG.clear()
+                        apply_model(base, patches)
+                        want_f = canon(base)
+                        got_f = on_fresh_thread(lambda: load_outcome(data_f, patches))
+                        chk.count('conformance_cases_remote_false_stream')
+                        if got_f != ('ok', want_f):
+                            chk.violation('patch-mismatch:remote=False-stream:%s' % pk.primary(feats), 'shape %r variant %s patches %s on a stream written with remote=False: want %s got %s' % (
+                                sname, VARIANTS[vi], short(patches, 150), short(want_f, 250), short(got_f, 250)), {'shape': sname, 'variant': VARIANTS[vi], 'patches': patches})
+                    except BaseException:  # noqa
+                        pass
+                    LOG.clear()
                 got = on_fresh_thread(lambda: load_outcome(data, patches))
                 chk.case((sname, vi, short(patches, 200)) if patches else None)
                 chk.count('conformance_cases')
